@@ -430,6 +430,87 @@ def wrappers(t):
     return out, t
 
 
+def specialise_arm(vfn, body, ty, ws):
+    """The arm body with what is known for this (rule type, trivia?) folded in: conditions over bool locals that depend
+    only on the rule's name / type are decided, and a closure kept in a local (`let body = move |state| { if wrap_atomic
+    {..} else {..} }`) is put where it is applied or handed on.  Returns the node unchanged when there is nothing to do."""
+    import copy
+    lets = hirq.lets(vfn["body"])
+    modes = hirq.binding_modes(vfn)
+    closures = {lid: init for lid, (init, st) in lets.items() if init is not None and kind(peel(init)) == "Closure"}
+    if not closures and not any(kind(x) == "If" for x in walk(body)):
+        return body
+
+    def evalb(c, depth=0):
+        c = peel(c)
+        k = kind(c)
+        if depth > 6:
+            return None
+        if k == "Lit" and c.get("lk") == "bool":
+            return bool(c.get("v"))
+        if k == "Path" and c.get("res") == "local" and c["id"] in lets and not modes.get(c["id"]) and lets[c["id"]][0] is not None \
+                and c.get("ty") == "bool":
+            return evalb(lets[c["id"]][0], depth + 1)
+        if k == "Unary" and c["op"] == "!":
+            v = evalb(c["e"], depth + 1)
+            return None if v is None else (not v)
+        if k == "Binary" and c["op"] in ("||", "&&"):
+            a, b = evalb(c["l"], depth + 1), evalb(c["r"], depth + 1)
+            if c["op"] == "&&":
+                if a is False or b is False:
+                    return False
+                return True if (a is True and b is True) else None
+            if a is True or b is True:
+                return True
+            return False if (a is False and b is False) else None
+        lits = set(x.get("v") for x in walk(c) if kind(x) in ("Lit", "PLit") and x.get("lk") == "str")
+        if lits and lits <= {"WHITESPACE", "COMMENT"} and k == "Binary" and c["op"] in ("==", "!="):
+            # one name comparison: for an ordinary rule false; for a trivia rule undecided alone, but the disjunction of
+            # both names is what the code asks - handled by treating each as `ws` (true for at least one of the names)
+            return ws if c["op"] == "==" else (not ws)
+        if k == "Match" and RTYPE in str(c.get("sty") or peel(c["scrut"]).get("ty") or "") and any(
+                "matches" in e_ for e_ in (c.get("exp") or [])):
+            for arm in c["arms"]:
+                vs = hirq.pat_variants(arm["pat"])
+                if RTYPE + "::" + ty in vs or hirq.pat_is_catchall(arm["pat"]):
+                    return hirq.lit_value(arm["body"]) is True
+            return None
+        if k == "Binary" and c["op"] in ("==", "!="):
+            for y in (peel(c["l"]), peel(c["r"])):
+                if kind(y) == "Path" and str(y.get("path", "")).startswith(RTYPE + "::"):
+                    eq = y["path"].split("::")[-1] == ty
+                    return eq if c["op"] == "==" else (not eq)
+        return None
+
+    def tr(x, depth=0):
+        if depth > 40:
+            return x
+        if isinstance(x, list):
+            return [tr(y, depth + 1) for y in x]
+        if not isinstance(x, dict):
+            return x
+        k = x.get("k")
+        if k == "If":
+            v = evalb(x["cond"])
+            if v is True:
+                return tr(x["then"], depth + 1)
+            if v is False and x.get("else") is not None:
+                return tr(x["else"], depth + 1)
+        if k == "Call":
+            f = peel(x["f"])
+            if kind(f) == "Path" and f.get("res") == "local" and f["id"] in closures:
+                return tr(copy.deepcopy(peel(closures[f["id"]])["body"]), depth + 1)
+        if k == "Path" and x.get("res") == "local" and x["id"] in closures:
+            c2 = copy.deepcopy(peel(closures[x["id"]]))
+            c2["body"] = tr(c2["body"], depth + 1)
+            return c2
+        out = {}
+        for kk, vv in x.items():
+            out[kk] = tr(vv, depth + 1) if isinstance(vv, (dict, list)) else vv
+        return out
+    return tr(body)
+
+
 def vm_modifier_arms(vfn, variants):
     """{(variant, is_trivia): arm-body node} of Vm::parse_rule, found by evaluating its control structure for each rule
     type and for a WHITESPACE/COMMENT name vs an ordinary one - whatever the spelling: nested `if name.. { match ty }`,
@@ -668,6 +749,7 @@ def rule_rule(rep, ctx, sfx):
     for (v, isws), body in vm_modifier_arms(vfn, variants).items():
         hf = HirFront(vfn, {}, rec_callees=[VM + "::parse_expr"], skip_callees=[VM + "::skip"],
                       rule_callees=[VM + "::parse_rule"])
+        body = specialise_arm(vfn, body, v, isws)
         tm = hf.term(body)
         vm_terms[(v, isws)] = (tm, {"body": body}, hf.problems)
     for ws in (None, "WHITESPACE"):
